@@ -89,8 +89,23 @@ def cases(draw):
             'flags': draw(st.sampled_from([0, 0, 0x40, 0x20, 0x080000, 0x200040, (1 << 40) | 0x40, 0x2000]))}
 
 
+def stack_cases():
+    ''' Whole nodes (vlib/stack_world.py): n1 originates, n2 forwards, n3 reassembles; each hop has its own CL and
+    its own route MTU, so fragments made at n1 may be fragmented again at n2. '''
+    return st.fixed_dictionaries({
+        'kind': st.just('stack'),
+        'hops': st.lists(st.sampled_from(['tcpcl', 'udpcl']), min_size=2, max_size=2),
+        'rmtu': st.lists(st.sampled_from([None, 120, 150, 200, 400]), min_size=2, max_size=2),
+        'umtu': st.sampled_from([None, 100, 300]),
+        'sizes': st.lists(st.sampled_from([8, 200, 300, 500, 1000]), min_size=1, max_size=3),
+        'flags': st.sampled_from([0, 0, 0x40, 0x20, 0x080000]),
+        'pcrc': st.sampled_from([1, 2]), 'ycrc': st.sampled_from([0, 1, 2]),
+        'back': st.booleans(),
+    })
+
+
 def strategy(tier):
-    return cases()
+    return st.one_of(cases(), cases(), cases(), stack_cases())
 
 
 def enumerate_cases(tier):
@@ -123,6 +138,8 @@ def enumerate_cases(tier):
 
 
 def pinned_cases():
+    yield 'stack-refragmented', {'kind': 'stack', 'hops': ['tcpcl', 'udpcl'], 'rmtu': [200, 120], 'umtu': 100, 'sizes': [500, 8, 300],
+                                 'flags': 0x080000, 'pcrc': 1, 'ycrc': 2, 'back': True}
     yield 'same-offset-different-length', {'total': 20, 'ranges': [[0, 5], [0, 10], [10, 20]],
                                           'other': {'variant': 'seq', 'total': 7, 'ranges': []},
                                           'arrival': [[0, 0], [0, 1], [0, 2]], 'pcrc': 1, 'ycrc': 2, 'ext': [True], 'source': 'ref', 'seed': 1}
@@ -286,7 +303,81 @@ def execute_huge_total(case):
     return out
 
 
+def execute_stack(case):
+    from vlib import stack_world as sw, bpconv, ref9171 as r
+    out = Outcome()
+    hop12, hop23 = case['hops']
+    m12, m23 = case['rmtu']
+    world = sw.StackWorld([
+        dict(routes=[('^dtn://n[23]/', 2, hop12, m12)], rx_routes=[('^dtn://n1/', 'deliver')]),
+        dict(routes=[('^dtn://n1/', 1, hop12, m12), ('^dtn://n3/', 3, hop23, m23)],
+             rx_routes=[('^dtn://n2/', 'deliver'), ('^dtn://n[13]/', 'forward')]),
+        dict(routes=[('^dtn://n[12]/', 2, hop23, m23)], rx_routes=[('^dtn://n3/', 'deliver')]),
+    ], udpcl_mtu=case.get('umtu'))
+    try:
+        sent = []
+        for seq, size in enumerate(case['sizes'], 1):
+            origin, dest = (3, 1) if case.get('back') and seq % 2 == 0 else (1, 3)
+            payload = bytes((seq * 37 + i * 11) % 251 for i in range(size))
+            pri = dict(version=7, flags=int(case.get('flags', 0)), crc_type=case['pcrc'], dest=['dtn', '//n%d/svc' % dest],
+                       src=['dtn', '//n%d/app' % origin], rpt=['dtn', 'none'], ts=[1000, seq], lifetime=3600000, frag=None)
+            bundle = {'primary': pri, 'blocks': [dict(type=1, num=1, flags=0, crc_type=case['ycrc'], data=payload.hex())]}
+            err = world.hosts[origin].originate(bpconv.to_repo(bundle))
+            sent.append((origin, dest, seq, payload, err))
+            if seq % 2:
+                world.pump()
+        world.pump()
+        world.advance(1000)
+        # was anything fragmented on the way?  (from the wire)
+        frag_hops = set()
+        for xfer in world.transfers() + world.udp_bundles():
+            if not xfer['complete']:
+                continue
+            try:
+                dec = r.decode(xfer['data'])
+            except Exception as err:
+                out.fail('wire-undecodable', 'a transfer n%s -> n%s does not decode as a bundle: %s' % (xfer['src'], xfer['dst'], err))
+                continue
+            if dec['primary']['frag'] is not None:
+                frag_hops.add((xfer['src'], xfer['dst']))
+                limit = m12 if {xfer['src'], xfer['dst']} == {1, 2} else m23
+                if limit is not None and len(xfer['data']) > limit:
+                    # an existing fragment is sent unchanged (C05), also over a route with a smaller MTU
+                    out.label('fragment-forwarded-over-smaller-mtu')
+        for origin, dest, seq, payload, err in sent:
+            where = 'bundle %d (%d octets) n%d -> n%d, hops %s, route MTUs %s, UDPCL MTU %s' % (
+                seq, len(payload), origin, dest, case['hops'], case['rmtu'], case.get('umtu'))
+            if err is not None:
+                # the origin refused (payload does not fit any fragmentation of that MTU): nothing may arrive then
+                out.label('origin-refused')
+            recs = [x for x in world.hosts[dest].records() if x['ts'] == (1000, seq) and x['source'] == 'dtn://n%d/app' % origin]
+            if len(recs) > 1:
+                out.fail('delivered-more-than-once', '%d deliveries of %s' % (len(recs), where))
+            if not recs:
+                if err is None:
+                    out.count('not-delivered')
+                    out.label('not-delivered')
+                continue
+            rec = recs[0]
+            if rec['payload'] != payload:
+                out.fail('reassembled-payload-differs', 'delivered payload (%d octets) differs from the original (%s)' % (len(rec['payload'] or b''), where))
+            if rec['flags'] != int(case.get('flags', 0)):
+                out.fail('reassembled-flags-differ', 'delivered bundle has flags %#x, original %#x (%s)' % (rec['flags'], int(case.get('flags', 0)), where))
+            out.count('delivered-intact')
+        if len(frag_hops) >= 1:
+            out.label('fragmented-on-the-way')
+        out.label('stack', 'stack-hops:%s+%s' % (hop12, hop23))
+        out.nontrivial = bool(frag_hops) and any(x for x in sent if x[4] is None)
+        for esc in world.escapes():
+            out.count('stack-escape:%s@%s' % (esc.exc_type, esc.frame))
+    finally:
+        world.close()
+    return out
+
+
 def execute(case):
+    if case.get('kind') == 'stack':
+        return execute_stack(case)
     if case.get('kind') == 'secured':
         return execute_secured(case)
     if case.get('kind') == 'huge-total':
